@@ -195,8 +195,8 @@ class InstrumentedAsyncServer:
                 datetime.fromtimestamp(t, timezone.utc).isoformat(),
             ), namespace=self.admin_namespace)
         elif event == 'disconnect':
-            del self.sio.manager._timestamps[sid]
-            reason = args[1]
+            self.sio.manager._timestamps.pop(sid, None)
+            reason = args[1] if len(args) > 1 else None
             await self.sio.emit('socket_disconnected', (
                 namespace,
                 sid,
